@@ -38,6 +38,14 @@ def cover_tasks(tier, seed):
     for _ in range(40 if tier == 'quick' else 2000):
         k = rnd.randint(1, 3)
         tasks.append(dict(fn='check_cover', kw=dict(nin=3, rows=[[rnd.choice([''.join(p) for p in itertools.product('01-', repeat=3)]), '1'] for _ in range(k)])))
+    # many product terms (every term count 5..24): distinct minterms of 5 inputs, so that each row is the only
+    # one covering its valuation, and mixed don't-care rows
+    planes5 = [''.join(p) for p in itertools.product('01', repeat=5)]
+    dc5 = [''.join(p) for p in itertools.product('01-', repeat=5)]
+    for k in range(5, 25):
+        for _ in range(2 if tier == 'quick' else 12):
+            tasks.append(dict(fn='check_cover', kw=dict(nin=5, rows=[[p, '1'] for p in rnd.sample(planes5, k)])))
+        tasks.append(dict(fn='check_cover', kw=dict(nin=5, rows=[[p, '1'] for p in rnd.sample(dc5, k)])))
     return tasks
 
 
@@ -62,7 +70,8 @@ def run(ctx):
     for merge in (True, False):
         tasks.append(dict(fn='check_hier', kw=dict(merge=merge)))
         tasks.append(dict(fn='check_import_history', kw=dict(merge=merge)))
-        for variant in ('dual_clock', 'first_model_reused'):
+        for variant in ('dual_clock', 'first_model_reused') + tuple(
+                'local_clock_name:%s:%s' % (o_, s_) for o_ in ('buffer_first', 'instance_first') for s_ in ('latch', 'cell')):
             tasks.append(dict(fn='check_seq_hier', kw=dict(merge=merge, variant=variant)))
     for n in (2, 10, 11, 12, 23):
         for merge in (True, False):
@@ -132,7 +141,7 @@ def run(ctx):
                                text='imported netlist does not compute the function the file defines')
     ctx.family('C12.blif_covers', 'B', instances=ncov, evaluations=ncov, nontrivial=ncov, exhaustive=False,
                bound='all covers over <=3 inputs with <=3 (2 for 3 inputs) product terms, ON- and OFF-set; '
-                     'sampled 4-input covers; every input valuation of each', sample=tasks[5])
+                     'sampled 4-input covers; 5-input covers with every term count 5..24 (distinct minterms / mixed); every input valuation of each', sample=tasks[5])
     ctx.family('C12.flops', 'B', instances=len(names), evaluations=len(names) * 32, nontrivial=len(names),
                exhaustive=True, bound='each of the %d supported cell names x every (state, d, e, s, r)' % len(names),
                sample=dict(name=names[0]))
